@@ -3,6 +3,8 @@
 mode "example": runs the *unmodified* example.py with runpy (argv given), with runtime wrappers
 recording the protocol phases, capturing (mat, rhs, Phi) from np.linalg.solve and the residual
 closure from ErrorEstimator.residual, then stopping the driver.
+mode "session": the same, after other problems were run from the same working directory (the
+driver keeps ./data between runs).
 mode "pipeline": executes the driver's own entry points on a randomly refined mesh.
 Either way the residual is integrated over every leaf with an independent graded tensor rule whose
 break points are the mesh lines crossing the leaf, and records are printed as JSON lines.
@@ -75,8 +77,8 @@ def leaf_integrals(elems, residual, levels=3):
 
 
 def emit(rec):
-    sys.stdout.write("@@" + json.dumps(rec) + "\n")
-    sys.stdout.flush()
+    sys.__stdout__.write("@@" + json.dumps(rec) + "\n")        # not the driver's redirected stdout
+    sys.__stdout__.flush()
 
 
 def records(problem, domain, exact, kind, elems, residual, mat, rhs, Phi, levels=3):
@@ -91,13 +93,15 @@ def records(problem, domain, exact, kind, elems, residual, mat, rhs, Phi, levels
               "dev": int(min(1e9, np.ceil(1e6 * abs(i1) / bound))), "int_r": i1, "int_abs_r": ia})
 
 
-def run_example(problem, domain, exact):
-    import multiprocessing
+def run_example(problem, domain, exact, priors=(), workdir=None):
+    """priors: problems run before, to their first residual, from the same working directory"""
+    import shutil
     from src import error_estimator as ee
+    from src import single_layer as sl
     cap = {}
     orig_solve = np.linalg.solve
     orig_res = ee.ErrorEstimator.residual
-    orig_hh2 = None
+    orig_bm = sl.SingleLayerOperator.bilform_matrix
 
     def solve(a, b):
         x = orig_solve(a, b)
@@ -111,8 +115,6 @@ def run_example(problem, domain, exact):
         cap["residual"] = orig_res(self, elems, Phi, SL, M0u0, g, SL_exact_eval=SL_exact_eval)
         cap["elems"] = list(elems)
         raise Stop()
-    from src import single_layer as sl
-    orig_bm = sl.SingleLayerOperator.bilform_matrix
 
     def bm(self, *a, **k):
         if "assembled" not in cap:
@@ -122,26 +124,44 @@ def run_example(problem, domain, exact):
     np.linalg.solve = solve
     ee.ErrorEstimator.residual = residual
     sl.SingleLayerOperator.bilform_matrix = bm
-    argv = ["example.py", "--problem", problem, "--domain", domain, "--no-h-h2"] + (["--single-layer-exact"] if exact else [])
     old = sys.argv
-    sys.argv = argv
     cwd = os.getcwd()
-    work = tempfile.mkdtemp(prefix="c03.", dir=os.environ.get("VERIF_SCRATCH_DIR", "/verif/.scratch"))
-    os.chdir(work)
+    work = workdir or tempfile.mkdtemp(prefix="c03.", dir=os.environ.get("VERIF_SCRATCH_DIR", "/verif/.scratch"))
     exc = ""
-    emit({"k": "phase", "phase": "configure"})
+    mode = "session" if priors else "example"
+    # every earlier run is a process of its own (the driver fixes the multiprocessing start method once per process)
+    import subprocess
+    for prob in priors:
+        p = subprocess.run([sys.executable, os.path.abspath(__file__), "prior", prob, domain, "1" if exact else "0", work],
+                           stdout=subprocess.PIPE, stderr=subprocess.PIPE, text=True)
+        if '"exc": ""' not in p.stdout:
+            exc = "prior run %s failed: %s" % (prob, (p.stdout + p.stderr)[-150:])
+    os.chdir(work)
     try:
-        with contextlib.redirect_stdout(io.StringIO()):
-            runpy.run_path(os.path.join(REPO, "example.py"), run_name="__main__")
-    except Stop:
-        pass
-    except BaseException as ex:
-        exc = "%s: %s" % (type(ex).__name__, str(ex)[:150])
+        for prob in [problem]:
+            if exc:
+                break
+            cap.clear()
+            sys.argv = ["example.py", "--problem", prob, "--domain", domain, "--no-h-h2"] + (["--single-layer-exact"] if exact else [])
+            emit({"k": "phase", "phase": "configure"})
+            buf = io.StringIO()
+            try:
+                with contextlib.redirect_stdout(buf):
+                    runpy.run_path(os.path.join(REPO, "example.py"), run_name="__main__")
+            except Stop:
+                pass
+            except BaseException as ex:
+                exc = "%s: %s" % (type(ex).__name__, str(ex)[:150])
+                break
+            out = buf.getvalue()
+            if priors and prob is problem:
+                emit({"k": "session", "prior": priors[-1], "problem": problem, "domain": domain, "exact": exact,
+                      "sl_hit": "Loaded Single Layer from file" in out, "m0_hit": "Loaded Initial Operator from file" in out})
     finally:
         sys.argv = old
         os.chdir(cwd)
-        import shutil
-        shutil.rmtree(work, ignore_errors=True)
+        if workdir is None:
+            shutil.rmtree(work, ignore_errors=True)
         np.linalg.solve = orig_solve
     if "residual" in cap and not exc:
         try:
@@ -150,9 +170,10 @@ def run_example(problem, domain, exact):
                                 np.array([0.5 * sum(map(float, cap["elems"][0].space_interval))]), cap["elems"][0].gamma_space)
         except Exception as ex:
             exc = "residual evaluation: %s: %s" % (type(ex).__name__, str(ex)[:120])
-    emit({"k": "run", "mode": "example", "problem": problem, "domain": domain, "exact": exact, "exc": exc})
-    if "residual" in cap and not exc:
-        records(problem, domain, exact, "driver-initial", cap["elems"], cap["residual"], cap.get("mat"), cap.get("rhs"), cap.get("Phi"))
+    emit({"k": "run", "mode": mode, "problem": problem, "domain": domain, "exact": exact, "exc": exc})
+    if "residual" in cap and not exc and workdir is None:
+        kind = "driver-initial" if not priors else "driver-initial-after-" + "-".join(priors)
+        records(problem, domain, exact, kind, cap["elems"], cap["residual"], cap.get("mat"), cap.get("rhs"), cap.get("Phi"))
 
 
 def run_pipeline(problem, domain, exact, seed, nref):
@@ -218,5 +239,9 @@ if __name__ == "__main__":
     mode, problem, domain, exact = sys.argv[1], sys.argv[2], sys.argv[3], sys.argv[4] == "1"
     if mode == "example":
         run_example(problem, domain, exact)
+    elif mode == "prior":
+        run_example(problem, domain, exact, workdir=sys.argv[5])
+    elif mode == "session":
+        run_example(problem, domain, exact, priors=tuple(sys.argv[5].split(",")))
     else:
         run_pipeline(problem, domain, exact, int(sys.argv[5]), int(sys.argv[6]))
